@@ -569,11 +569,11 @@ def check_total_limits(ck, prog):
         raise AnalysisBroken("C13-TOTALS: no aggregate with a limit-checked += site found (uncompressed_size expected)")
 
 
-def check_seek_state(ck, prog):
+def check_seek_state(ck, prog, rule="C13-SEEKSTATE"):
     """file_info_decode() is re-entered after LZMA_SEEK_NEEDED in whatever state coder->sequence names.  A state body that
     moves the file position bookkeeping (compound update of a coder member) must therefore advance coder->sequence
     before it can return LZMA_SEEK_NEEDED, otherwise the update is applied a second time on re-entry."""
-    ck.rule("C13-SEEKSTATE", "after a compound update of the position bookkeeping, coder->sequence is advanced before "
+    ck.rule(rule, "after a compound update of the position bookkeeping, coder->sequence is advanced before "
                              "any LZMA_SEEK_NEEDED return")
     f = prog.fn("file_info_decode", "file_info.c")
     ck.saw_function(f)
@@ -581,9 +581,27 @@ def check_seek_state(ck, prog):
                 and "SEEK_NEEDED" in ex.show(ex.deref(e).get("e"))]
     if not seekrets:
         raise AnalysisBroken("file_info_decode: no return of LZMA_SEEK_NEEDED")
+    # ... and calls of helpers that return LZMA_SEEK_NEEDED themselves (reverse_seek(): the result is passed on by
+    # return_if_error)
+    seekers = {nm for nm, fs in prog.functions.items() for g in fs if g.blocks and g.file.endswith("file_info.c")
+               and g.name != "file_info_decode"
+               and any(e is not None and ex.deref(e).get("k") == "ret" and "SEEK_NEEDED" in ex.show(ex.deref(e).get("e"))
+                       for b in g.blocks.values() for e in b.elems)}
+    if not seekers:
+        raise AnalysisBroken("file_info.c: no helper returning LZMA_SEEK_NEEDED (reverse_seek)")
+    seekrets += [b.id for b, i, e in f.iter_elems() for c in ex.calls(e, into_refs=False) if c.get("fn") in seekers]
 
     def via(bb, ii, ee):
         return any(ex.show(l) == "coder->sequence" for (l, r, op, n) in ex.writes(ee))
+    # blocks that can be reached from the entry (the dispatch on coder->sequence) without a store to coder->sequence
+    storeb = {b.id for b, i, e in f.iter_elems() if via(b, i, e)}
+    fresh, st_ = set(), [f.entry]
+    while st_:
+        x = st_.pop()
+        if x is None or x in fresh or x in storeb:
+            continue
+        fresh.add(x)
+        st_.extend(f.blocks[x].succs)
     n = 0
     for b, i, e in f.iter_elems():
         for (l, r, op, node) in ex.writes(e):
@@ -591,16 +609,18 @@ def check_seek_state(ck, prog):
             if ls is None or ls.get("k") != "mem" or op not in ("-=", "+=") or not ex.show(l).startswith("coder->"):
                 continue
             n += 1
-            ok = any(via(b, j, b.elems[j]) for j in range(i + 1, len(b.elems)) if b.elems[j] is not None)
+            ok = any(via(b, j, b.elems[j]) for j in range(len(b.elems)) if b.elems[j] is not None)
             path = None
+            if not ok and b.id not in fresh:
+                ok = True       # every path from the dispatch to this update has already stored the next state
             if not ok:
                 ok, path = cfg.must_pass(f, cfg.succs(f, b.id), seekrets, via)
-            ck.ob("C13-SEEKSTATE", "%s@%d" % (ls["f"], n), ok, common.where(f, node),
+            ck.ob(rule, "%s@%d" % (ls["f"], n), ok, common.where(f, node),
                   "`%s` is followed by a store to coder->sequence before any LZMA_SEEK_NEEDED" % ex.show(node) if ok else
                   "file_info_decode(): after `%s` (line %s) LZMA_SEEK_NEEDED can be returned (lines %s) with coder->sequence "
                   "unchanged: on re-entry the same state body runs again and applies the update twice" % (
                       ex.show(node), ex.line(node), cfg.path_lines(f, path)), key="SEEKSTATE:%s" % ls["f"])
-    ck.floor("C13-SEEKSTATE", 8, "obligations")
+    ck.floor(rule, 8, "obligations")
 
 
 def check_nonempty_base(ck, prog):
@@ -703,3 +723,7 @@ def run(ck):
     ck.floor("C13-READFIRST", 8)
     prog_xz = common.program(ck, ("xz",), files=("/list.c",))
     check_provenance(ck, prog, prog_xz)
+    # lzma_file_info_decoder() with LZMA_FINISH: after LZMA_SEEK_NEEDED the application supplies new input, so lzma_code()
+    # has to leave its "finishing" state (transition relation of lzma_code, shared with C11)
+    from . import C11 as _C11
+    _C11.check_fsm(ck, prog)
